@@ -13,7 +13,7 @@ from vf.world import World
 CKTYPES = [ChecksumType.CRC_32, ChecksumType.CRC_32C, ChecksumType.NULL_CHECKSUM, ChecksumType.MODULAR]
 
 
-def setup(ctx, w, M, id_w, seq_w, K=0, modes=(ACK, UNACK), cktypes=CKTYPES, limits=2, shapes=("file", "dir", "existing"),
+def setup(ctx, w, M, id_w, seq_w, K=0, modes=(ACK, UNACK), cktypes=CKTYPES, limits=2, shapes=("file", "dir", "existing", "dir_existing"),
           faults=("deliver", "drop", "dup"), fixed=None):
     fixed = fixed or {}
     ids = Ids(id_w, seq_w)
@@ -37,12 +37,12 @@ def setup(ctx, w, M, id_w, seq_w, K=0, modes=(ACK, UNACK), cktypes=CKTYPES, limi
     seg = smin(L, derived) if use_L else derived
     S = ctx.int("S", 0, 2**16)
     ctx.assume(S <= M * seg)
-    dst_name = "/dst" if shape == "dir" else "/dst/file.bin"
+    dst_name = "/dst" if shape in ("dir", "dir_existing") else "/dst/file.bin"
     sysm = hsys.System(ctx, w, ids=ids, mode=mode, closure=closure, cktype=ck, crc=crc, imm=imm, seg_len=L,
                        max_packet_len=P, limits=limits, S=S, M=M, K=K, dst_name=dst_name, faults=faults)
-    if shape == "dir":
+    if shape in ("dir", "dir_existing"):
         sysm.dst.fs.add_dir("/dst")
-    elif shape == "existing":
+    if shape in ("existing", "dir_existing"):
         sysm.dst.fs.add_plain_file("/dst/file.bin", ctx.int("old_len", 0, 64))
     cfg = dict(mode=mode, closure=closure, ck=ck, crc=crc, imm=imm, shape=shape, S=S, seg=seg, P=P)
     return sysm, cfg
@@ -136,7 +136,7 @@ def plan(tier):
 
 
 BOUNDS = {
-    "quick": "fault-free FIFO link; mode x closure x 4 checksum types x PDU CRC flag x immediate/deferred NAK x destination given as file / existing directory / pre-existing file, max_file_segment_len None or symbolic, max_packet_len and file size symbolic with at most M=2 segments (widths (2,2)) / M=1 (widths (1,1),(8,4)); pacing: 0..2 extra packet-less state-machine calls per side before every delivery (constant per run), plus a run with an independent 0/1 choice per side in each of the first 3 rounds (CRC-32, plain file); metadata-only put request",
+    "quick": "fault-free FIFO link; mode x closure x 4 checksum types x PDU CRC flag x immediate/deferred NAK x destination given as file / existing directory / pre-existing file / directory already containing the file, max_file_segment_len None or symbolic, max_packet_len and file size symbolic with at most M=2 segments (widths (2,2)) / M=1 (widths (1,1),(8,4)); pacing: 0..2 extra packet-less state-machine calls per side before every delivery (constant per run), plus a run with an independent 0/1 choice per side in each of the first 3 rounds (CRC-32, plain file); metadata-only put request",
     "thorough": "all 12 width pairs, M=4 for (2,2), M=2 otherwise",
 }
 OUTSIDE = "more than M segments (the per-segment step is uniform, but that is an argument, not a verdict); byte-level serialisation is exercised on the concrete representative of sampled paths only; TLV options; request-level mode/closure overrides (C19)"
